@@ -74,14 +74,15 @@ example :
     options, the table maps the flag to an option whose `dest` is the keyword that
     `parse_config_file` writes the key to; a list-valued flag corresponds to the list of the
     value's non-empty lines, a single-valued flag to the value as is (a string — also for the
-    texts `true`/`false`), a switch to `True` for the value `true` in any case. -/
+    texts `true`/`false`), a switch to `True` for each of the words `true`, `yes`, `on`, `1` in
+    any letter case (see `config_bool_words` for the other direction and the other values). -/
 theorem config_eq_kwargs (t : Table) (hok : Impl.tableOK t = true) :
     ∀ kf ∈ documentedConfig, ∃ o, t.lookup kf.2 = some o ∧ Impl.configDest kf.1 = o.dest ∧
       ∀ (v : String) (ns : Namespace),
         NS.get (Impl.parseConfig [(kf.1, v)] ns) o.dest = some (Impl.configVal kf.1 v) ∧
         (o.nargs = .plus → Impl.configVal kf.1 v = Group.value t ⟨kf.2, Impl.splitLines v⟩) ∧
         (o.nargs = .one → Impl.configVal kf.1 v = Group.value t ⟨kf.2, [v]⟩) ∧
-        (o.nargs = .zero → Impl.lowerAscii v = "true".toList →
+        (o.nargs = .zero → Impl.isTrueWord v = true →
           Impl.configVal kf.1 v = Group.value t ⟨kf.2, []⟩) := by
   intro kf hkf
   have D := (Impl.tableFacts t hok).documented
@@ -119,6 +120,67 @@ example : Impl.toKwargs (Impl.parseConfig
         announce := .list ["http://t/a", "http://t/b"], urlList := .list ["http://w"],
         private_ := .bool true, comment := .str "true", outfile := .str "out/",
         pieceLength := .str "18" } := by decide
+
+/-- Boolean options in the configuration file (`private`, `align`).  Take any accepted command
+    line `toks` with namespace `ns`, and a configuration entry `key = w` applied on top of it.
+    * If `w` is one of `true`, `yes`, `on`, `1` (any letter case) the resulting keyword
+      dictionary is literally the one of the command line with the flag appended: the entry
+      means exactly "flag present".
+    * If `w` is one of `false`, `no`, `off`, `0` (any letter case) the keyword becomes `False`;
+      when the flag is absent from the command line (keyword still at its default `False`) the
+      dictionary is literally unchanged: the entry means exactly "flag absent".
+    * Any other value is stored as the raw string (as the code does); downstream `if private:` /
+      `if align:` reads it as "on" unless it is empty (`private =` gives the empty string). -/
+theorem config_bool_words (t : Table) (hok : Impl.tableOK t = true) (key flag : String)
+    (hkf : (key = "private" ∧ flag = "--private") ∨ (key = "align" ∧ flag = "--align"))
+    (w : String) (toks : List String) (ns : Namespace) (h : Impl.argparse t toks = .ok ns) :
+    ∃ o, t.lookup flag = some o ∧ o.nargs = .zero ∧ Impl.configDest key = o.dest ∧
+      (Impl.isTrueWord w = true →
+        Impl.argparse t (toks ++ [flag]) = .ok (Impl.parseConfig [(key, w)] ns)) ∧
+      (Impl.isFalseWord w = true →
+        Impl.parseConfig [(key, w)] ns = NS.set ns o.dest (.bool false) ∧
+        (NS.get ns o.dest = some (.bool false) → Impl.parseConfig [(key, w)] ns = ns)) ∧
+      (Impl.isTrueWord w = false → Impl.isFalseWord w = false →
+        Impl.parseConfig [(key, w)] ns = NS.set ns o.dest (.str w) ∧
+        ((Val.str w).truthy = true ↔ w ≠ "")) := by
+  have D := (Impl.tableFacts t hok).documented
+  rcases hkf with ⟨hk, hf⟩ | ⟨hk, hf⟩ <;> subst hk <;> subst hf
+  · exact Impl.config_bool_core t _ _ "private"
+      (D ("--private", "private", .zero) (by simp [Impl.documentedFlags]))
+      (by decide) (by decide) (Or.inl rfl) w toks ns h
+  · exact Impl.config_bool_core t _ _ "align"
+      (D ("--align", "align", .zero) (by simp [Impl.documentedFlags]))
+      (by decide) (by decide) (Or.inr (Or.inl rfl)) w toks ns h
+
+/-- all eight words in mixed case, on top of `create pay -a http://t`: the "on" words give the
+    namespace of `create pay -a http://t --private`, the "off" words leave it as it is -/
+example :
+    (["true", "YES", "On", "1", "TrUe", "yEs"].all fun w =>
+      (Impl.argparse Impl.createTable ["pay", "-a", "http://t"]).map (Impl.parseConfig [("private", w)])
+        == Impl.argparse Impl.createTable ["pay", "-a", "http://t", "--private"]) = true ∧
+    (["false", "NO", "Off", "0", "FaLsE", "oFF"].all fun w =>
+      (Impl.argparse Impl.createTable ["pay", "-a", "http://t"]).map (Impl.parseConfig [("align", w)])
+        == Impl.argparse Impl.createTable ["pay", "-a", "http://t"]) = true := by decide
+
+/-- other values fall through as raw strings: `private = maybe` is truthy and lands as
+    `info.private = 1`; `private =` (empty) is falsy and does not; a `%` is an ordinary character -/
+example :
+    (Impl.toKwargs (Impl.parseConfig [("private", "maybe"), ("comment", "100%% of %(x)s 50%")]
+      Impl.createTable.defaults)).private_ = .str "maybe" ∧
+    (Impl.toKwargs (Impl.parseConfig [("private", "maybe"), ("comment", "100%% of %(x)s 50%")]
+      Impl.createTable.defaults)).comment = .str "100%% of %(x)s 50%" ∧
+    ((Impl.metaInit (fun s => s == "pay") (Impl.toKwargs (Impl.parseConfig
+        [("private", "maybe"), ("piece-length", "15")] (Impl.createTable.defaults.map
+          (fun e => if e.1 = "content" then (e.1, Val.str "pay") else e))))).toOption.map
+      (fun kw => Impl.fields kw 100 "/cwd" "pay"))
+      = some (.ok [("info.private", .int 1), ("info.piece length", .int 32768),
+                   ("<output path>", .val (.str "/cwd/pay.torrent"))]) ∧
+    ((Impl.metaInit (fun s => s == "pay") (Impl.toKwargs (Impl.parseConfig
+        [("private", ""), ("piece-length", "15")] (Impl.createTable.defaults.map
+          (fun e => if e.1 = "content" then (e.1, Val.str "pay") else e))))).toOption.map
+      (fun kw => Impl.fields kw 100 "/cwd" "pay"))
+      = some (.ok [("info.piece length", .int 32768),
+                   ("<output path>", .val (.str "/cwd/pay.torrent"))]) := by decide
 
 /-- Where each keyword lands.  If `fields` succeeds on a resolved keyword record, then
     * a tracker list with a non-empty first URL gives `announce` = the first URL and
